@@ -618,6 +618,9 @@ impl<D: Distance> Writer<D> {
                 self.index,
                 &mut descendants,
                 options.available_memory.unwrap_or(usize::MAX),
+                // take more items than a descendant can hold: otherwise the new sub-tree is
+                // a single descendant again and this loop never makes progress
+                200.max(options.split_after.unwrap_or(self.dimensions).saturating_add(1)),
             )?;
             let frozen_reader = FrozzenReader {
                 leafs: &leafs,
@@ -693,6 +696,7 @@ impl<D: Distance> Writer<D> {
                 options
                     .available_memory
                     .map_or(usize::MAX, |memory| (memory as f64 * 2.0 / 3.0).floor() as usize),
+                200,
             )?;
             let frozzen_reader =
                 FrozzenReader { leafs: &leafs, trees: &immutable_tree_nodes, concurrent_node_ids };
